@@ -3,7 +3,7 @@ Model of `extractor/filesystem/language/java/gradlelockfile`: `Extract`, `isGrad
 `parseToGradlePackageDetail`, on raw bytes.
   * every scanner line is `strings.TrimSpace`d;
   * lines starting with `#` or `empty=` are skipped;
-  * `strings.SplitN(line, ":", 3)` must give three parts and the third must contain `=`, otherwise the line is
+  * `strings.SplitN(line, ":", 3)` must give three parts, the first two non-empty (fix 58056712), and the third must contain `=`, otherwise the line is
     skipped (the error of `parseToGradlePackageDetail` is swallowed by `continue`);
   * name = group ":" artifact, version = the third part up to its first `=`;
   * `scanner.Err()` after the loop fails the file.
@@ -22,6 +22,7 @@ def gradleLineGo (raw : Line) : Option (Option (List Char × List Char)) :=
   if parts.length < 3 then some none else
   match goIndex parts 0, goIndex parts 1, goIndex parts 2 with
   | some g, some a, some v =>
+    if g.isEmpty || a.isEmpty then some none else      -- not a Maven coordinate (fix 58056712)
     if !v.contains '=' then some none else
     match goIndex (splitN '=' 2 v) 0 with
     | some ver => some (some (g ++ ':' :: a, ver))
@@ -39,6 +40,7 @@ def gradleLine (raw : Line) : Option (List Char × List Char) :=
     match cutAt ':' r1 with
     | none => none
     | some (a, v) =>
+      if g.isEmpty || a.isEmpty then none else
       match cutAt '=' v with
       | none => none
       | some (ver, _) => some (g ++ ':' :: a, ver)
